@@ -1,5 +1,6 @@
 import Scion.Model.Net
 import Scion.Proofs.Net
+import Scion.Proofs.NetTamper
 /-!
 # C04 — Tampered hop or info fields prevent delivery
 
@@ -179,6 +180,82 @@ theorem tamper_first_hop_not_delivered_partial (mac : MacFn) (net : Net) (now sr
   unfold send fuelFor at h
   rw [show 2 * (toFlat c').hops.length + 2 = 2 * (toFlat c').hops.length + 1 + 1 by omega, ho] at h
   cases h
+
+/-- the ways a single hop field can be altered: one or several of ExpTime / ConsIngress /
+    ConsEgress with the MAC left alone, or the MAC with the rest left alone.  In a segment traversed
+    against construction direction the first two MAC bytes also enter the SegID under which the hop
+    itself is validated, so a change of those two bytes changes tag *and* input at once — a forgery
+    as far as a symbolic MAC can tell; there the MAC change is restricted to its last four bytes. -/
+def HopTamper (cd : Bool) (h h' : Hop) : Prop :=
+  (h'.mac = h.mac ∧ (h'.exp, h'.cIn, h'.cEg) ≠ (h.exp, h.cIn, h.cEg)) ∨
+  (h'.mac ≠ h.mac ∧ h'.exp = h.exp ∧ h'.cIn = h.cIn ∧ h'.cEg = h.cEg ∧
+    (cd = true ∨ pfx h'.mac = pfx h.mac))
+
+/-- **run level, any hop of a segment** (`_partial`: single-segment paths — up, core or down, whole
+    or shortcut, described by `FL` as every registered edge is (`edge_spec`) — and one border
+    router per AS): if the hop field the packet carries for the `(|m1|+1)`-th AS after the source
+    is altered (`HopTamper`), the packet travels exactly as the genuine one up to that AS and is
+    stopped there — never delivered, and stopped "no later than at the first router that
+    validates a hop field whose MAC input depends on the altered value". -/
+theorem tamper_hop_stopped_partial (mac : MacFn) (net : Net) (now src dst : Nat) (core cd : Bool)
+    (ts : Nat) (hUp : AllUp net) (hSR : SingleRouter net)
+    (seg0 : Nat) (e0 : ASE) (m1 : List ASE) (ek : ASE) (h' : Hop) (tlh : List Hop)
+    (hinj : MacInj mac (net ek.ia).key)
+    (hFL : FL mac net core cd ts seg0 (e0 :: (m1 ++ [ek])))
+    (hsrc : src = e0.ia) (hsd : src ≠ dst)
+    (hmid : ∀ e ∈ m1, e.ia ≠ src ∧ e.ia ≠ dst ∧ expired now ts e.hop.exp = false)
+    (hexp0 : expired now ts e0.hop.exp = false)
+    (htam : HopTamper cd (hopOf ek.hop) h')
+    (hr : InRange ⟨cd, false, usedSeg cd (extractBeta (Scion.SegID.updateSegID seg0 (pfx e0.hop.mac)) (sig m1))
+            (hopOf ek.hop), ts⟩ (hopOf ek.hop))
+    (hr' : InRange ⟨cd, false, usedSeg cd (extractBeta (Scion.SegID.updateSegID seg0 (pfx e0.hop.mac)) (sig m1))
+            h', ts⟩ h')
+    (fuel : Nat) :
+    ∃ o tr, run mac net now src dst (fuel + 2 + m1.length) src 0 .host
+        ⟨[], ⟨cd, false, usedAt cd seg0 e0, ts⟩, [], hopOf e0.hop,
+          (m1.map fun e => hopOf e.hop) ++ h' :: tlh, []⟩ [] =
+      .stopped ek.ia 0 (.ext (inF cd ek)) o tr := by
+  have hpre := segment_prefix_run mac net now src dst core cd ts hUp hSR seg0 e0 m1 ek h' tlh hFL hsrc hsd
+    hmid hexp0 (fuel + 1)
+  rw [show fuel + 2 + m1.length = fuel + 1 + 1 + m1.length by omega, hpre]
+  obtain ⟨hml, hin0, _⟩ := fl_last mac net core cd ts m1 e0 ek seg0 hFL
+  -- the genuine packet at the AS of ek, and the tampered one
+  have hing : ∀ h : Hop, ingUpd ⟨[], ⟨cd, false, extractBeta (Scion.SegID.updateSegID seg0 (pfx e0.hop.mac)) (sig m1), ts⟩,
+        hopOf e0.hop :: m1.map (fun e => hopOf e.hop), h, tlh, []⟩ (.ext (inF cd ek)) false =
+      ⟨[], ⟨cd, false, usedSeg cd (extractBeta (Scion.SegID.updateSegID seg0 (pfx e0.hop.mac)) (sig m1)) h, ts⟩,
+        hopOf e0.hop :: m1.map (fun e => hopOf e.hop), h, tlh, []⟩ := by
+    intro h
+    cases cd <;> simp [ingUpd, usedSeg, Arrival.ifid, hin0]
+  have hrej := tampered_current_hop_not_forwarded mac (cfgOf net ek.ia) hinj now (.ext (inF cd ek))
+    (ek.ia == src) (ek.ia == dst)
+    ⟨[], ⟨cd, false, extractBeta (Scion.SegID.updateSegID seg0 (pfx e0.hop.mac)) (sig m1), ts⟩,
+      hopOf e0.hop :: m1.map (fun e => hopOf e.hop), hopOf ek.hop, tlh, []⟩
+    ⟨[], ⟨cd, false, extractBeta (Scion.SegID.updateSegID seg0 (pfx e0.hop.mac)) (sig m1), ts⟩,
+      hopOf e0.hop :: m1.map (fun e => hopOf e.hop), h', tlh, []⟩ false
+    (by simp [determinePeer]) (by rw [hing]; exact hr) (by rw [hing]; exact hr')
+    (by rw [hing, usedSeg_hopOf]; exact macOk_of_macAt mac net ts _ ek cd false hml)
+    (by
+      rw [hing, hing]
+      rcases htam with ⟨hm, hne⟩ | ⟨hm, _, _, _, _⟩
+      · intro heq
+        simp only [protectedOf, Prod.mk.injEq] at heq
+        exact hne (by simp [heq.2.2.1, heq.2.2.2.1, heq.2.2.2.2.1])
+      · intro heq
+        simp only [protectedOf, Prod.mk.injEq] at heq
+        exact hm heq.2.2.2.2.2)
+    (by
+      rw [hing, hing]
+      rcases htam with ⟨hm, _⟩ | ⟨_, h1, h2, h3, hp⟩
+      · left; exact hm
+      · right
+        have hus : usedSeg cd (extractBeta (Scion.SegID.updateSegID seg0 (pfx e0.hop.mac)) (sig m1)) h' =
+            usedSeg cd (extractBeta (Scion.SegID.updateSegID seg0 (pfx e0.hop.mac)) (sig m1)) (hopOf ek.hop) := by
+          rcases hp with hcd | hp
+          · subst hcd; rfl
+          · cases cd <;> simp [usedSeg, hp]
+        simp [inputOf, hus, h1, h2, h3])
+  obtain ⟨o, ho⟩ := run_stops mac net now src dst fuel ek.ia 0 (.ext (inF cd ek)) _ _ hrej
+  exact ⟨o, _, ho⟩
 
 /-- an injective "MAC": the input itself, read as a number in base 257 with digits 1…256 -/
 def encMac : MacFn := fun _ inp => inp.foldr (fun b acc => b.toNat + 1 + 257 * acc) 0
